@@ -155,6 +155,19 @@ impl StateCheck for C18 {
         };
         out.nontrivial = !c.data.is_empty();
         compare_components(&c, &c2, "components -> text -> components", out);
+        // component sets reached through a history of library calls (part of the file read, a component pushed, normalized
+        // again; normalized twice) survive the round trip as well
+        if !self.cli {
+            for v in crate::hist::variants(text, 6) {
+                let Ok(cv) = &v.comps else { continue };
+                out.evals += 1;
+                out.regime("history_of_calls");
+                match cv.to_string().parse::<Components>() {
+                    Ok(cv2) => compare_components(cv, &cv2, &format!("{} -> text -> components", v.desc), out),
+                    Err(e) => out.viol("written_components_read_back", &["history"], v.desc.clone(), format!("{e}"), "parses"),
+                }
+            }
+        }
         if c.needs.ACS.is_some() || c.needs.CAL.is_some() || c.needs.REF.is_some() {
             out.regime("demands");
         }
